@@ -19,7 +19,9 @@ TStep ==
           \/ e.cmd = "mutenv" /\ MutateThroughEnv
           \/ e.cmd = "mutheld" /\ MutateHeld
           \/ e.cmd = "togglerule" /\ ToggleRule
-          \/ e.cmd = "launch" /\ Launch(e.k, e.v) /\ res'.child = e.obs.child /\ res'.back = e.obs.back
+          \/ e.cmd = "launch" /\ Launch(e.k, e.v) /\ res'.child = e.obs.map /\ (res'.dev = "" => res'.back = e.obs.back)
+               \* the real child (whole command path) always sees the values at launch time
+               /\ (e.obs.real => e.obs.child = [k \in Keys |-> IF k = e.k THEN e.v ELSE val[k]])
                \* the mirrored (deprecated) name of R always carries the same value
                /\ e.obs.mirror = res'.child["R"]
        /\ used' = IF res'.dev = "" THEN used ELSE used \cup {res'.dev}
